@@ -10,7 +10,7 @@ import functools
 from . import clex
 
 DEFAULT_STYLE = dict(p_empty=0.25, p_tab=0.1, p_multi=0.2, p_cmt=0.06, p_nl_slot=0.15, indent='random', blank=2, p_trail=0.1,
-                     p_join=0.08, eol='\n', p_cont=0.5, nonascii=True, p_brace_nl=0.5, bs_cmt=0.0, multi_cmt=True, cmt_tab=True, unstarred_cmt=True, box_cmt=0.0)
+                     p_join=0.08, eol='\n', p_cont=0.5, nonascii=True, p_brace_nl=0.5, bs_cmt=0.0, multi_cmt=True, cmt_tab=True, unstarred_cmt=True, box_cmt=0.0, p_bs_trail=0.0)
 
 REAL = ('id', 'kw', 'num', 'str', 'chr', 'punct', 'hdr')
 
@@ -105,6 +105,8 @@ class Renderer:
             line = cur
             if cont:
                 line += ('' if line.endswith((' ', '\t')) or rng.random() < 0.3 else ' ') + '\\'
+                if stl['p_bs_trail'] and rng.random() < stl['p_bs_trail']:
+                    line += rng.choice([' ', '  ', '\t', ' \t'])      # blanks between the backslash and the line end (still a continuation for gcc)
             elif rng.random() < stl['p_trail']:
                 line += rng.choice([' ', '  ', '\t', ' \t'])
             out.append(line)
